@@ -338,6 +338,85 @@ func c01DirectedSlowFetch(r *hx.Run, w *W, ps *plans, i int, jump int64) {
 	w.Clock.Advance(40)
 }
 
+// c01DirectedLongFetch: the fetch takes longer than any patience a waiter might have (11 s of real time, no
+// proxy timeout configured): the waiters still wait, nobody else goes upstream, and when the fetch ends
+// while requests wait on another key each waiter gets the response of its own key
+func c01DirectedLongFetch(r *hx.Run, w *W, ps *plans, i int) {
+	uris := []string{fmt.Sprintf("/c01long/%d/%d/a", r.Seed, i), fmt.Sprintf("/c01long/%d/%d/b", r.Seed, i)}
+	gates := []chan struct{}{make(chan struct{}), make(chan struct{})}
+	var once [2]sync.Once
+	release := func(k int) { once[k].Do(func() { close(gates[k]) }) }
+	defer release(0)
+	defer release(1)
+	for k, u := range uris {
+		g := gates[k]
+		ps.set(u, &plan{Seq: []ans{{Kind: "cacheable", T: 300}}, Gate: func(*hx.Fetch) <-chan struct{} { return g }})
+		defer ps.del(u)
+	}
+	overBefore := len(w.Farm.Overlaps())
+	chans := [2][]chan *hx.Result{}
+	start := func(k int) {
+		ch := make(chan *hx.Result, 1)
+		chans[k] = append(chans[k], ch)
+		go func() {
+			ch <- w.Cl.Do(hx.Req{Addr: w.Addr, Host: "c01.example", URI: uris[k], Timeout: 60 * time.Second})
+		}()
+	}
+	burst := func(k int) bool {
+		key := "GET c01.example " + uris[k]
+		start(k)
+		if !hx.WaitUntil(10*time.Second, func() bool { return w.Farm.InflightKey(key) == 1 }) {
+			return false
+		}
+		for n := 0; n < 2; n++ {
+			reg := w.Pts.Count("get.registered")
+			start(k)
+			hx.WaitUntil(5*time.Second, func() bool { return w.Pts.Count("get.registered") > reg })
+		}
+		return true
+	}
+	if !burst(0) {
+		r.InconclusiveCase("C01 long fetch: fetcher not at origin")
+		return
+	}
+	time.Sleep(11 * time.Second)
+	maxA := w.Farm.MaxInflight("GET c01.example " + uris[0])
+	okB := burst(1)
+	release(0)
+	var res [2][]*hx.Result
+	for _, ch := range chans[0] {
+		res[0] = append(res[0], <-ch)
+	}
+	release(1)
+	for _, ch := range chans[1] {
+		res[1] = append(res[1], <-ch)
+	}
+	r.Eval(1)
+	r.Add("directed_long_fetch_schedules", 1)
+	r.Distinct("directed_long_fetch")
+	cs := map[string]interface{}{"uris": uris, "schedule": "fetch of a held at the origin for 11 s with two parked waiters; fetch of b held with two parked waiters; a released, then b"}
+	if over := w.Farm.Overlaps()[overBefore:]; len(over) > 0 || maxA > 1 {
+		r.Violate("concurrent_upstream_fetches", map[string]string{"mode": "directed_long_fetch"}, fmt.Sprintf("a request waiting for a fetch that took 11 s went upstream itself: max in flight %d, labels %v", maxA, labelsOf(res[0])), briefs(res[0]), cs)
+		return
+	}
+	for k := range uris {
+		nf := 0
+		for _, x := range res[k] {
+			if x.Label == "fetching" {
+				nf++
+			}
+			if x.Err != nil || x.Status != 200 || !x.HasIdent || x.Ident.URI != uris[k] {
+				r.Violate("waiter_got_wrong_or_no_response", map[string]string{"mode": "directed_long_fetch"}, fmt.Sprintf("request for %s answered with status %d, err %v, body of %q", uris[k], x.Status, x.Err, x.Ident.URI), briefs(res[k]), cs)
+				return
+			}
+		}
+		if nf != 1 && (k == 0 || okB) {
+			r.Violate("two_fetchers", map[string]string{"mode": "directed_long_fetch"}, fmt.Sprintf("%d requests labelled fetching for %s: %v", nf, uris[k], labelsOf(res[k])), briefs(res[k]), cs)
+			return
+		}
+	}
+}
+
 // c01DirectedLookup: a request is held between the dispatcher lookup and the entry lookup while the
 // entry expires and another request becomes the fetcher
 func c01DirectedLookup(r *hx.Run, w *W, ps *plans, i int, t int64) {
@@ -480,7 +559,7 @@ func c01Porcupine(r *hx.Run, w *W, ps *plans, rnd *rand.Rand, n int) {
 }
 
 func c01(r *hx.Run) {
-	r.Rule = "bursts: 1-4 keys x {2..64} identical concurrent GET (every fifth burst HEAD) requests x 1-3 epochs, in some an unsafe request on the same URI passes through during the fetch and a late request follows, the fetch held at the origin until the hook counter shows all other requests parked (1/4 released early), jitter at 4 hook points, judged by the origin in-flight monitor and per-epoch exactly-once accounting; directed: waiter held between wake-up and resumption while the entry expires and a new fetcher starts; failed fetches: the one contact of a burst hangs past the proxy timeout, resets the connection or sends half a body - no client request may reach the upstream twice; porcupine: 8 staggered clients + a concurrent clock advancer, per-key linearizability. Non-trivial = burst with >=1 parked waiter; distinct = interleaving signature (hash of the (goroutine role, hook point) sequence) / directed outcome / porcupine partition with >=2 epochs."
+	r.Rule = "bursts: 1-4 keys x {2..64} identical concurrent GET (every fifth burst HEAD) requests x 1-3 epochs, in some an unsafe request on the same URI passes through during the fetch and a late request follows, the fetch held at the origin until the hook counter shows all other requests parked (1/4 released early), jitter at 4 hook points, judged by the origin in-flight monitor and per-epoch exactly-once accounting; directed: waiter held between wake-up and resumption while the entry expires and a new fetcher starts; a fetch that takes 11 s of real time with parked waiters, ending while requests wait on another key; failed fetches: the one contact of a burst hangs past the proxy timeout, resets the connection or sends half a body - no client request may reach the upstream twice; porcupine: 8 staggered clients + a concurrent clock advancer, per-key linearizability. Non-trivial = burst with >=1 parked waiter; distinct = interleaving signature (hash of the (goroutine role, hook point) sequence) / directed outcome / porcupine partition with >=2 epochs."
 	r.Assume = []string{"virtual clock through the cache.nowUnix hook", "no eviction: cache size 100000 >> keys (asserted by the eviction hook)", "-race build"}
 	rnd := rand.New(rand.NewSource(r.Seed))
 	w := newSimpleWorld(r, hx.SimpleCfg{CacheName: "c01"}, 1, true)
@@ -501,6 +580,9 @@ func c01(r *hx.Run) {
 	}
 	for i := 0; i < r.Pick(12, 1500) && !r.TooMany(); i++ {
 		c01DirectedSlowFetch(r, w, ps, i, []int64{5, 11, 61, 301, 3601}[i%5])
+	}
+	for i := 0; i < r.Pick(1, 4) && !r.TooMany(); i++ {
+		c01DirectedLongFetch(r, w, ps, i)
 	}
 	w.Pts.SetJitter(c01JitterPoints, 200)
 	c01Porcupine(r, w, ps, rnd, r.Pick(60, 6000))
